@@ -114,7 +114,7 @@ def opsBackends (op : String) (j : Json) : Option (Except String Json) :=
           ("header", Json.arr (hdr.map strsJson).toArray)])
   | "be.path_parts" => some do
       let n ← getStr j "name"
-      pure (Json.mkObj [("stem", jstr (pathStem n)), ("suffix", jstr (pathSuffix n))])
+      pure (Json.mkObj [("stem", jstr (pathStem (pathName n))), ("suffix", jstr (pathSuffix (pathName n))), ("name", jstr (pathName n))])
   | "be.excel_guard" => some do
       -- guard of `excel_roundtrip` on an abstract workbook and decoded grids; the dict container
       let wb ← (← getArr j "sheets").toList.mapM sheetOfJson
